@@ -1098,7 +1098,8 @@ class DT(Function):
         self.model = model
 
     def term(self, time="t"):
-        return "{}".format(self.model.dt)
+        # evaluated at run time: a scenario may override the run specs of its model
+        return "model.dt"
 
 
 class Starttime(Function):
@@ -1110,7 +1111,7 @@ class Starttime(Function):
         self.model = model
 
     def term(self, time="t"):
-        return "{}".format(self.model.starttime)
+        return "model.starttime"
 
 
 class Stoptime(Function):
@@ -1122,7 +1123,7 @@ class Stoptime(Function):
         self.model = model
 
     def term(self, time="t"):
-        return "{}".format(self.model.stoptime)
+        return "model.stoptime"
 
 
 class Time(Function):
@@ -1181,9 +1182,9 @@ class Pulse(Function):
 
     def term(self, time="t"):
         if self.interval.element == 0.0:
-            return "(({}/{}) if {}=={} else 0.0)".format(self.volume.term(time), self.model.dt, time, self.first_pulse)
+            return "(({}/{}) if {}=={} else 0.0)".format(self.volume.term(time), "model.dt", time, self.first_pulse)
         else:
-            return "(({volume}/{dt}) if (({time}-{first_pulse}) >= 0 and (({time}-{first_pulse})%({interval}))==0) else 0.0)".format(volume=self.volume.term(time), dt=self.model.dt, time=time, first_pulse=self.first_pulse, interval=self.interval)
+            return "(({volume}/{dt}) if (({time}-{first_pulse}) >= 0 and (({time}-{first_pulse})%({interval}))==0) else 0.0)".format(volume=self.volume.term(time), dt="model.dt", time=time, first_pulse=self.first_pulse, interval=self.interval)
 
 
 class Trend(Function):
@@ -1243,14 +1244,14 @@ class Delay(Function):
 
     def term(self, time="t"):
         delayed_time = "{} - {}".format(str(time),
-                                        self.delay_duration.term(str(self.model.starttime)))
+                                        self.delay_duration.term("model.starttime"))
         # compare on the time grid: 0.7 - 0.2 is 0.49999999999999994 in floating point
         return "({} if round(({})-({}),9)>=0 else {})".format(
             self.input_function.term(delayed_time),
             delayed_time,
-            str(self.model.starttime),
-            self.initial_value.term(str(self.model.starttime)) if self.initial_value is not None else self.input_function.term(
-                str(self.model.starttime))
+            "model.starttime",
+            self.initial_value.term("model.starttime") if self.initial_value is not None else self.input_function.term(
+                "model.starttime")
         )
 
 
